@@ -97,5 +97,24 @@ def search(res, tier, seed, deep=False):
             report("whole-degree-shift:" + name, dict(debiaser=name, window_mode="none", shift=-273.0, n=[nO, nH, nF], seed=seed), err,
                    "whole-degree records shifted by -273 (exact in floating point) do not give the shifted output")
 
+    # whole-degree records stored as integers, through apply (which converts them): Kelvin -> Celsius
+    import warnings as _w
+    for name in ("LinearScaling", "QuantileMapping", "DeltaChange", "ECDFM"):
+        d = R.build(name, "tas", r.choice(["none", "days"]), r)
+        rs3 = np.random.RandomState(r.randint(0, 10 ** 6))
+        n = 800
+        mk = lambda sh: np.round(R.series(rs3, n, "tas", sh)).astype(np.int64).reshape(n, 1, 1)
+        obs, hist, fut = mk(0.0) - 10, mk(1.5) - 10, mk(3.0) - 10        # around 270 K: Celsius values of both signs
+        t = R.times(n, "1980-01-01"); tk = dict(time_obs=t, time_cm_hist=t, time_cm_future=t)
+        with _w.catch_warnings():
+            _w.simplefilter("ignore")
+            np.random.seed(11); base = d.apply(obs, hist, fut, progressbar=False, **tk)
+            np.random.seed(11); out = d.apply(obs - 273, hist - 273, fut - 273, progressbar=False, **tk)
+        res.case(("c04-integer-records", name))
+        err = float(np.max(np.abs(out.astype(float) - (base.astype(float) - 273))))
+        if not (err <= 1e-6) or not np.issubdtype(out.dtype, np.floating):
+            report("integer-records:" + name, dict(debiaser=name, dtype="int64", shift=-273, seed=seed), dict(max_error=err, output_dtype=str(out.dtype)),
+                   "whole-degree records stored as integers: Kelvin and Celsius input do not give the same output up to the shift")
+
 def replay(w):
     return True, "re-run ./check C04 (inputs are regenerated from the recorded seed)"
